@@ -299,6 +299,15 @@ macro_rules! fixed_width {
                 // Montgomery forms: a converted in, inverse retrieved
                 let params = if it % 2 == 0 { MontyParams::<N>::new(om) } else { MontyParams::<N>::new_vartime(om) };
                 let mf = MontyForm::new(&ua, params);
+                if it % 3 == 0 && vcmp(m, &[3]).is_gt() {
+                    for rep in [fit(vec![1], N), fit(vec![2], N), fit(vsub(m, &[1]), N), fit(vsub(m, &[2]), N)] {
+                        let f = MontyForm::from_montgomery(u::<N>(&rep), params);
+                        let av = w(&f.retrieve());
+                        cx.call(ev_inv("monty.inv", N, &av, m), || out(Option::<MontyForm<N>>::from(f.inv()).map(|y| y.retrieve())));
+                        cx.call(ev_inv("monty.inv_vartime", N, &av, m), || out(Option::<MontyForm<N>>::from(f.inv_vartime()).map(|y| y.retrieve())));
+                        cx.call(ev_inv("monty.Invert.invert_vartime", N, &av, m), || out(Option::<MontyForm<N>>::from(Invert::invert_vartime(&f)).map(|y| y.retrieve())));
+                    }
+                }
                 cx.call(ev_inv("monty.inv", N, a, m), || out(Option::<MontyForm<N>>::from(mf.inv()).map(|y| y.retrieve())));
                 cx.call(ev_inv("monty.inv_vartime", N, a, m), || out(Option::<MontyForm<N>>::from(mf.inv_vartime()).map(|y| y.retrieve())));
                 if it % 2 == 0 {
@@ -491,6 +500,19 @@ fn boxed_forms(cx: &mut Cx, n: usize, a: &[u64], md: &Md, it: usize) {
         let params = if it % 2 == 0 { BoxedMontyParams::new(om.clone()) } else { BoxedMontyParams::new_vartime(om.clone()) };
         let mf = BoxedMontyForm::new(ba.clone(), params.clone());
         let ret = |y: CtOption<BoxedMontyForm>| -> Option<BoxedUint> { Option::<BoxedMontyForm>::from(y).map(|v| v.retrieve()) };
+        // operands whose stored (Montgomery) representative is special: 1, 2, m - 1, m - 2 (the integer is then k * R^-1 mod m)
+        if it % 3 == 0 && vcmp(m, &[3]).is_gt() {
+            for rep in [fit(vec![1], n), fit(vec![2], n), fit(vsub(m, &[1]), n), fit(vsub(m, &[2]), n)] {
+                let f = BoxedMontyForm::from_montgomery(bx(&rep), params.clone());
+                let av = wb(&f.retrieve());
+                cx.call(ev_inv("boxed_monty.invert", n, &av, m), || outb(ret(f.invert())));
+                cx.call(ev_inv("boxed_monty.invert_vartime", n, &av, m), || outb(ret(f.invert_vartime())));
+                cx.call(ev_inv("boxed_monty.Invert.invert_vartime", n, &av, m), || outb(ret(Invert::invert_vartime(&f))));
+                let mi = params.precompute_inverter();
+                cx.call(ev_inv("boxed_monty_params.precompute_inverter.invert_vartime", n, &av, m), || outb(ret(mi.invert_vartime(&f))));
+                cx.call(ev_inv("boxed_monty_params.precompute_inverter.invert", n, &av, m), || outb(ret(mi.invert(&f))));
+            }
+        }
         cx.call(ev_inv("boxed_monty.invert", n, &a, m), || outb(ret(mf.invert())));
         cx.call(ev_inv("boxed_monty.invert_vartime", n, &a, m), || outb(ret(mf.invert_vartime())));
         if it % 2 == 0 {
